@@ -168,6 +168,9 @@ g_constant_info_get_value (GIConstantInfo *info,
 	    case GI_TYPE_TAG_DOUBLE:
 	      DO_ALIGNED_COPY(&value->v_double, &rinfo->typelib->data[blob->offset], gdouble);
 	      break;
+	    case GI_TYPE_TAG_UNICHAR:
+	      value->v_uint32 = *(guint32*)&rinfo->typelib->data[blob->offset];
+	      break;
 	    default:
 	      g_assert_not_reached ();
 	    }
